@@ -119,9 +119,9 @@ func TestC13(t *testing.T) {
 	rec := recorder("C13")
 	defer rec.Flush(t)
 	failed := 0
-	fail := func(check string, c interface{}, err error) {
+	failCell := func(c CellCase, err error) {
 		failed++
-		p := rec.Violation(check, c, "", err)
+		p := cellViolation(rec, c, err)
 		t.Errorf("C13 violation: %v (replay %s)", err, p)
 	}
 
@@ -136,7 +136,7 @@ func TestC13(t *testing.T) {
 			c := CellCase{Col: hist.Column{Type: refenc.TString, Real: refenc.TString, Len: l}, Val: hist.Value{B: refenc.Blob{K: 4 + idx%4, S: uint32(idx), N: n}}, Pre: idx % 3, Post: 1}
 			rec.Case(true, c, "char/declared-exhaustive")
 			if err := checkCell(c); err != nil {
-				fail("cell", c, err)
+				failCell(c, err)
 				break
 			}
 		}
@@ -160,7 +160,7 @@ func TestC13(t *testing.T) {
 			c := CellCase{Col: hist.Column{Type: refenc.TVarchar, Len: l}, Val: hist.Value{B: refenc.Blob{K: 4 + idx%4, S: uint32(idx), N: n}}, Pre: idx % 3, Post: 1}
 			rec.Case(true, c, "varchar/declared-sweep")
 			if err := checkCell(c); err != nil {
-				fail("cell", c, err)
+				failCell(c, err)
 				break
 			}
 		}
@@ -188,7 +188,7 @@ func TestC13(t *testing.T) {
 					c := CellCase{Col: hist.Column{Type: k.T, Len: lb}, Val: hist.Value{B: refenc.Blob{K: 4, S: uint32(n), N: n}}, Pre: 2, Post: 2}
 					rec.Case(true, c, "blob/length-bytes-boundaries")
 					if err := checkCell(c); err != nil {
-						fail("cell", c, err)
+						failCell(c, err)
 					}
 				}
 			}
@@ -212,7 +212,7 @@ func TestC13(t *testing.T) {
 			rec.Case(true, c, cls)
 			rec.Sample(c)
 			if err := checkCell(c); err != nil {
-				rec.Violation("cell", c, "", err)
+				cellViolation(rec, c, err)
 				rt.Fatalf("C13 violation: %v", err)
 			}
 			return
